@@ -1045,6 +1045,154 @@ fn tcp_transcript(s: &Swarm, dir: &PathBuf) -> Result<(Vec<String>, Vec<(PathBuf
     Ok((msgs, outs))
 }
 
+/// Dials that neither succeed nor fail for a while (real sockets, real clock, connect seam off):
+/// the tracker lists the honest seeder H first and eleven hosts whose listen queue is full (the
+/// kernel drops the SYN) behind it, so all eleven dial slots go to the silent hosts and H is only
+/// dialled once one of those dials has come to an end. After 6 s the silent hosts accept and close
+/// at once (the kernel's SYN retransmission 7 s after the first SYN gets through; the next one is
+/// due at 15 s). Obligation: the download from H completes (25 s horizon).
+/// Ok(None) holds; Ok(Some(..)) violation; Err(why) the run could not be set up here (a connect to
+/// a full listen queue does not hang on this kernel): skipped, not a verdict.
+pub fn slow_dial_case(dir: &PathBuf) -> Result<Option<(&'static str, String)>, String> {
+    use std::time::{Duration, Instant};
+    use tokio::io::{AsyncReadExt, AsyncWriteExt};
+    const HOLES: usize = 11;
+    core::wipe_dir(dir);
+    rdest::verif::clear_snapshots();
+    rdest::verif::set_choices(vec![]);
+    rdest::verif::set_net(None); // real TcpStream::connect
+    core::set_quiet_panics(true);
+    let t = crate::fixture::Torrent::new("t", 16384, &[("f", 16384 + 5000)], true);
+    let rt = tokio::runtime::Builder::new_current_thread().enable_all().build().map_err(|e| e.to_string())?;
+    let local = tokio::task::LocalSet::new();
+    let id_h = *b"-HS0001-slowdial-H00";
+    let res: Result<Option<(&'static str, String)>, String> = local.block_on(&rt, async {
+        // the silent hosts
+        let mut holes = vec![];
+        let mut cfgs: Vec<crate::world::PeerCfg> = vec![];
+        let seeder_l = tokio::net::TcpListener::bind("127.0.0.1:0").await.map_err(|e| e.to_string())?;
+        let addr_h = seeder_l.local_addr().map_err(|e| e.to_string())?.to_string();
+        cfgs.push(crate::world::PeerCfg { addr: addr_h.clone(), id: id_h, outgoing: true, ungated: true });
+        for i in 0..HOLES {
+            let sock = tokio::net::TcpSocket::new_v4().map_err(|e| e.to_string())?;
+            sock.bind("127.0.0.1:0".parse().unwrap()).map_err(|e| e.to_string())?;
+            let listener = sock.listen(1).map_err(|e| e.to_string())?;
+            let addr = listener.local_addr().map_err(|e| e.to_string())?;
+            let mut fillers = vec![];
+            for _ in 0..4 {
+                fillers.push(tokio::task::spawn_local(async move {
+                    if let Ok(s) = tokio::net::TcpStream::connect(addr).await {
+                        tokio::time::sleep(Duration::from_secs(3600)).await;
+                        drop(s);
+                    }
+                }));
+            }
+            let mut id = *b"-XX0001-slowdial-X00";
+            id[19] = b'A' + i as u8;
+            cfgs.push(crate::world::PeerCfg { addr: addr.to_string(), id, outgoing: true, ungated: true });
+            holes.push((listener, addr, fillers));
+        }
+        tokio::time::sleep(Duration::from_millis(300)).await;
+        let probes: Vec<_> = holes.iter().map(|(_, addr, _)| { let addr = *addr; tokio::task::spawn_local(async move { tokio::time::timeout(Duration::from_millis(500), tokio::net::TcpStream::connect(addr)).await.is_ok() }) }).collect();
+        for p in probes {
+            if p.await.unwrap_or(true) {
+                return Err("a connect to a full listen queue is answered at once on this kernel".to_string());
+            }
+        }
+        // tracker: first reply [H, X1..X11] (dialled from the end), later replies [H]
+        let first = std::cell::Cell::new(true);
+        let all: Vec<crate::world::PeerCfg> = cfgs.clone();
+        rdest::verif::set_http(Some(Box::new(move |_req: &reqwest::Request| {
+            let refs: Vec<&crate::world::PeerCfg> = if first.replace(false) { all.iter().collect() } else { all.iter().take(1).collect() };
+            crate::httpfake::respond(200, crate::fullworld::tracker_body(&refs))
+        })));
+        // honest seeder H: serves every connection it gets
+        let (info_hash, pieces) = (*t.meta.info_hash(), t.pieces.clone());
+        tokio::task::spawn_local(async move {
+            loop {
+                let (mut sock, _) = match seeder_l.accept().await {
+                    Ok(x) => x,
+                    Err(_) => return,
+                };
+                let pieces = pieces.clone();
+                tokio::task::spawn_local(async move {
+                    sock.set_nodelay(true).ok();
+                    let bits: Vec<bool> = pieces.iter().map(|_| true).collect();
+                    let hello = [refwire::encode(&refwire::handshake(&info_hash, &id_h)), refwire::encode(&Msg::Bitfield(refwire::bitfield_bytes(&bits))), refwire::encode(&Msg::Unchoke)].concat();
+                    if sock.write_all(&hello).await.is_err() {
+                        return;
+                    }
+                    let mut received: Vec<u8> = vec![];
+                    let mut answered = 0usize;
+                    let mut buf = vec![0u8; 65536];
+                    loop {
+                        match sock.read(&mut buf).await {
+                            Ok(0) | Err(_) => return,
+                            Ok(n) => received.extend_from_slice(&buf[..n]),
+                        }
+                        let (all, _, err) = refwire::decode_stream(&received);
+                        if err.is_some() {
+                            return;
+                        }
+                        for m in &all[answered..] {
+                            if let Msg::Request(i, b, l) = m {
+                                let p = &pieces[*i as usize];
+                                if (*b as usize) + (*l as usize) <= p.len() {
+                                    let _ = sock.write_all(&refwire::encode(&Msg::Piece(*i, *b, p[*b as usize..(*b + *l) as usize].to_vec()))).await;
+                                }
+                            }
+                        }
+                        answered = all.len();
+                    }
+                });
+            }
+        });
+        // the silent hosts come back after 6 s: accept and close at once
+        for (l, _, fillers) in holes {
+            tokio::task::spawn_local(async move {
+                tokio::time::sleep(Duration::from_secs(6)).await;
+                for f in fillers {
+                    f.abort();
+                }
+                loop {
+                    match l.accept().await {
+                        Ok((s, _)) => drop(s),
+                        Err(_) => return,
+                    }
+                }
+            });
+        }
+        let mut session = rdest::Session::new(t.meta.clone(), *crate::world::OWN_ID);
+        let session_task = tokio::task::spawn_local(async move { session.verif_run().await });
+        let want = t.expected_outputs();
+        let started = Instant::now();
+        let mut done = false;
+        while started.elapsed() < Duration::from_secs(25) {
+            tokio::time::sleep(Duration::from_millis(100)).await;
+            if session_task.is_finished() {
+                break;
+            }
+            if want.iter().all(|(rel, data)| std::fs::read(dir.join(rel)).map(|d| d == *data).unwrap_or(false)) {
+                done = true;
+                break;
+            }
+        }
+        let ended = session_task.is_finished();
+        session_task.abort();
+        if done {
+            return Ok(None);
+        }
+        let snap = rdest::verif::session_snapshot();
+        let detail = match &snap {
+            Some(s) => format!("piece statuses {:?}; {} peer records {:?}; untried candidates {:?} (H is {})", s.statuses, s.peers.len(), s.peers.iter().map(|p| p.addr.clone()).collect::<Vec<_>>(), s.candidates.iter().map(|(a, _)| a.clone()).collect::<Vec<_>>(), addr_h),
+            None => "no session snapshot".to_string(),
+        };
+        Ok(Some(("download-stalls-behind-unanswered-dials", format!("the tracker listed the honest seeder H (every piece, reachable, answers everything) in front of eleven hosts whose connect neither succeeded nor failed for 6 s and then was accepted and closed; 25 s after the start the download is not complete (session loop ended: {}); {}", ended, detail))))
+    });
+    rdest::verif::set_http(None);
+    res
+}
+
 /// A seeder that dials in: the real Session (unhooked accept path: listener, spawn_peer_listener,
 /// run_outgoing on the accepted socket) is connected to over loopback TCP by an honest seeder in
 /// the harness; the tracker lists nobody. Returns what the seeder received and the output files.
@@ -1358,6 +1506,12 @@ fn unseamed_part(ctx: &Ctx) -> (u64, Vec<Value>) {
         None => rows.push(json!({"scenario": "e2e-pieces-over-2MiB-1seeder (in memory)", "completed": true})),
         Some((class, why)) => ctx.violation(class, format!("[e2e-pieces-over-2MiB-1seeder] {}", &why[..why.len().min(500)]), json!({"scenario": "e2e-pieces-over-2MiB-1seeder", "kind": "bigpiece"})),
     }
+    n += 1;
+    match slow_dial_case(&dir) {
+        Ok(None) => rows.push(json!({"scenario": "e2e-11-unanswered-dials-in-front-of-the-seeder (loopback TCP, real clock)", "completed": true})),
+        Ok(Some((class, why))) => ctx.violation(class, format!("[e2e-11-unanswered-dials] {}", &why[..why.len().min(900)]), json!({"scenario": "e2e-11-unanswered-dials", "kind": "slowdial"})),
+        Err(why) => rows.push(json!({"scenario": "e2e-11-unanswered-dials-in-front-of-the-seeder (loopback TCP, real clock)", "skipped": why})),
+    }
     // the public entry point Session::run() (progress view included), in a subprocess whose stdout
     // is discarded: the fair continuation of each scenario from its initial state must complete
     let exe = std::env::current_exe().expect("current_exe");
@@ -1454,6 +1608,23 @@ pub fn replay(_ctx: &Ctx, r: &Value) -> i32 {
             Some((class, why)) => {
                 println!("VIOLATION property=C02 replay=<this file>\n  class={} {}", class, why);
                 1
+            }
+        };
+    }
+    if r["kind"] == "slowdial" {
+        let dir = core::private_cwd("c02", "replay");
+        return match slow_dial_case(&dir) {
+            Ok(None) => {
+                println!("holds");
+                0
+            }
+            Ok(Some((class, why))) => {
+                println!("VIOLATION property=C02 replay=<this file>\n  class={} {}", class, why);
+                1
+            }
+            Err(why) => {
+                println!("MACHINERY: the run could not be set up: {}", why);
+                2
             }
         };
     }
